@@ -1,6 +1,6 @@
 """C09 - dashes follow the dash pattern along arc length, restarted per subpath."""
 import math
-from .. import core, pathcheck as pc, scene, geom
+from .. import core, pathcheck as pc, scene, geom, scenecheck as sc
 from ..gen import f32bits as FB, bits_f32
 from . import _path
 
@@ -303,7 +303,60 @@ ASSUME = ["the arc-length oracle applies to single simple subpaths with positive
           "the bit-exact comparison with the model", "sqrt/division in f32 as IEEE (Flocq)"]
 
 
+def stroke_scenes(ctx):
+    """DrawTarget::stroke with a dash array must paint the outline of the path dashed by dash_path: the crate's stroke
+    is compared with the model's fill of stroke_to_path(dash_path(flatten(path))) (outline computed by the harness with
+    the crate's own exported functions).  Closed polygons whose first dash ends on the implicit closing segment, dashes
+    longer than the whole subpath, offsets of both signs."""
+    rng = ctx.rng
+    n = 120 if ctx.tier == "quick" else 2500
+    lines = []
+    for i in range(n):
+        W, H = rng.randrange(8, 15), rng.randrange(8, 15)
+        k = rng.randrange(3, 6)
+        pts = [(rng.randrange(4, 4 * W - 4) / 4.0, rng.randrange(4, 4 * H - 4) / 4.0) for _ in range(k)]
+        if rng.random() < 0.4:
+            x0, y0, x1, y1 = 1.5, 1.5, W - 1.5, H - 1.5
+            pts = [(x0, y0), (x1, y0), (x1, y1), (x0, y1)]
+        closed = rng.random() < 0.7
+        ops = ["M " + scene.fpt(*pts[0])] + ["L " + scene.fpt(*p) for p in pts[1:]] + (["Z"] if closed else [])
+        seg = lambda a, b: math.hypot(a[0] - b[0], a[1] - b[1])
+        explicit = sum(seg(pts[j], pts[j + 1]) for j in range(len(pts) - 1))
+        per = explicit + (seg(pts[-1], pts[0]) if closed else 0.0)
+        c = rng.random()
+        if c < 0.5:
+            first = explicit + rng.random() * max(per - explicit, 0.5)       # ends on the closing segment
+        elif c < 0.7:
+            first = per * rng.choice([1.0, 1.5, 3.0])
+        else:
+            first = rng.choice([1.0, 2.5, 4.0])
+        arr = [first, rng.choice([1.0, 3.0, 1000.0])] if rng.random() < 0.8 else [first]
+        off = rng.choice([0.0, 0.0, 1.0, -1.0, first / 2, -first / 2, 20.0])
+        style = "STYLE %d %s %s %d %d %s %d" % (FB(rng.choice([1.0, 2.0, 1.5])), rng.choice(["butt", "round", "square"]),
+                                                rng.choice(["miter", "round", "bevel"]), FB(4.0), len(arr),
+                                                " ".join(str(FB(a)) for a in arr), FB(off))
+        lines.append("scene %d %d %d I %s ; stroke %s %s SRC solid ffffffff 3 %d 1" % (
+            700000 + i, W, H, " ".join(["00000000"] * (W * H)), scene.path_tokens(ops, 0), style, FB(1.0)))
+    try:
+        sr = sc.run(lines)
+    except sc.ImplDied as e:
+        ctx.violation("impl-died", str(e), "the implementation aborted or hung on a dashed stroke")
+        return
+    bad = [(i, sr.first_diff(i)) for i in range(len(lines))]
+    bad = [(i, k) for i, k in bad if k is not None]
+    ctx.cov["dashed_stroke_scenes"] = len(lines)
+    if bad:
+        i, k = min(bad, key=lambda t: len(sr.aug[t[0]]))
+        ctx.violation("stroke-%s" % lines[i].split()[1], sr.aug[i],
+                      "DrawTarget::stroke with this dash array does not paint the outline of the path dashed along its arc length "
+                      "(pixels differ from the fill of stroke_to_path(dash_path(flatten(path)))): %d of %d scenes differ\n# impl:  %s\n# model: %s"
+                      % (len(bad), len(lines), sr.impl[i][k].raw[:200] if k < len(sr.impl[i]) else "-",
+                         sr.model[i][k].raw[:200] if k < len(sr.model[i]) else "-"))
+
+
 def run(ctx):
+    if core.prepare(ctx):
+        stroke_scenes(ctx)
     return _path.run_property(ctx, make_lines, RULE, oracle, ASSUME, nontrivial, 4000, 80000,
                               "PathOps.dash_path vs raqote::dash::dash_path")
 
